@@ -1,6 +1,7 @@
 """C04 — approximate superadditive-monotone bounds: sound, ordered, self-consistent."""
 from __future__ import annotations
 
+import os
 from functools import partial
 
 from . import families as F
@@ -41,6 +42,11 @@ def tasks(tier, seed):
     add(3, [], 1)
     addstep(4, [3])
     add(4, [3], 0)
+    # nine players (ids need more than one byte), minimal knowledge, structural clauses only (no class assumption: each of them holds
+    # by construction of the bounds, for any values) on the coalitions that contain the ninth player
+    # (not scheduled: the run itself takes 15 s, but each query over the 256-way max nodes costs z3 ~50 s - see DESIGN 10.5, round 5)
+    if os.environ.get("VERIF_N9") == "1":
+        out.append({"key": "structural/n9/r1/K=", "n": 9, "K": [], "r": 1, "next": False, "structural": True})
     # seeded operation histories on one object before the computation under test (state kept outside the value table)
     for K in fam3:
         for r in (0, 1, 2):
@@ -111,6 +117,8 @@ def setup(params, inp, lg):
     if params.get("ops"):
         for nm in H.stale_names(H.plan(n, params["K"], params["ops"])):
             inp.real(nm)
+    if params.get("structural"):
+        return []
     return F.sam_constraints(v, n, lg)
 
 
@@ -200,6 +208,8 @@ def scenario(pk, params, inp):
                 "nxt": _step_run(pk, params, inp, v, "skip-first", L0),    # one more repetition, then upper pass
                 "sa": _run(pk, params, inp, v, pk.bounds.BOUNDS["superadditive_cached"], False),
                 "L0": L0}
+    if params.get("structural"):
+        return {"r": _run(pk, params, inp, v, _computer(pk, r), False)}
     out = {"r": _run(pk, params, inp, v, _computer(pk, r), True),
            "sa": _run(pk, params, inp, v, pk.bounds.BOUNDS["superadditive_cached"], False)}
     if r < 10 and params.get("next", True):
@@ -248,6 +258,19 @@ def claims(params, inp, out, lg):
     n = params["n"]
     v = _v(params, inp)
     known = set(F.minimal(n)) | set(params["K"])
+    if params.get("structural"):
+        R = out["r"]
+        top = 1 << (n - 1)
+        cl = [("known-exact", lg.And([lg.And(lg.eq(R["L"][S], v[S]), lg.eq(R["U"][S], v[S]), R["known"][S] is True) for S in sorted(known)]))]
+        pick = [S for S in range(2 ** n) if S not in known and (S & top) and F.popcount(S) <= 3] + [S for S in range(2 ** n) if S not in known][::37]
+        for S in pick:
+            for Q in sorted(known):
+                if Q and Q != S and (Q & S) == Q:
+                    cl.append((f"upper-below-known-subcoalition:S={S}:Q={Q}", lg.le(R["U"][S], v[Q])))
+            if S & top:
+                cl.append((f"lower-monotone:S={S & ~top}:T={S}", lg.ge(R["L"][S & ~top], R["L"][S])))
+            cl.append((f"flag-unknown:S={S}", R["known"][S] is False))
+        return cl
     R, SA = out["r"], out["sa"]
     cl = []
     for S in range(2 ** n):
@@ -286,7 +309,7 @@ def canaries(params, inp, out, lg):
         return [(f"canary-step-sound-without-invariant:S={unk[0]}", lg.le(out["nxt"]["L"][unk[0]], _v(params, inp)[unk[0]]))]
     known = set(F.minimal(n)) | set(params["K"])
     unk = [S for S in range(2 ** n) if S not in known]
-    if not unk:
+    if not unk or params.get("structural"):
         return []
     S = unk[-1]
     # false on purpose: the SAM bounds would have to coincide with the plain superadditive ones
